@@ -27,7 +27,7 @@ def showPos : Option Nat → String
   | some n => toString n
 
 def showW (ws : List Wr) : String :=
-  if ws.isEmpty then "-" else String.intercalate "," (ws.map fun | .pending => "P" | .scan => "S")
+  if ws.isEmpty then "-" else String.intercalate "," (ws.map fun | .pending _ => "P" | .scan _ => "S")
 
 def tail (s : St) : String := s!"pos={showPos s.scanP} q={showQ s.pendP}"
 
@@ -88,6 +88,27 @@ def step (s : S) (line : String) : S × String :=
         | .errLastHeight => (s', s!"err:last-da-height {t}")
         | .nil => (s', s!"nil {t}")
         | .batch items ts => (s', s!"rel={hexList (items.map (·.tx))} ids={hexList (items.map (·.id))} ts={ts} {t}")
+  | "crash-next" =>
+    match o.nat? "max", o.nat? "at" with
+    | some max, some k =>
+      let echo : Option (List Bytes) :=
+        match o.get? "echo" with
+        | none => some s.last
+        | some "none" => some []
+        | some t => parseHexList t
+      match echo with
+      | none => (s, "bad-op")
+      | some last =>
+        -- the real call runs, dies after its first `k` durable writes; the answer is not delivered
+        let out := getNextBatch s.cfg s.da.fetch s.st { idOk := !(o.bool "badid"), max := max, last := last }
+        let st := crashAt s.st out.writes k
+        let und : String := match out.resp with
+          | .errInvalidId => "err:invalid-id"
+          | .errLastHeight => "err:last-da-height"
+          | .nil => "nil"
+          | .batch items _ => "und=" ++ hexList (items.map Item.id)
+        ({ s with st := st }, s!"crash k={min k out.writes.length} {und} pos={showPos st.scanP} q={showQ (some st.queue)} w={showW out.writes}")
+    | _, _ => (s, "bad-op")
   | "restart" =>
     let st := restart s.st
     ({ s with st := st }, s!"ok pos={showPos st.scanP} q={showQ (some st.queue)}")
